@@ -4,7 +4,7 @@
     here at full strength; the forced-schedule correspondence check and the runner's
     linearizability oracle (the same [seq_exec]) test them on every run. Each has a sanity
     [Example] showing that it holds on one concrete interleaving. *)
-From IV Require Import Model.Conc Model.ConcMem Model.ConcFile.
+From IV Require Import Model.Conc Model.ConcMem Model.ConcFile Model.ConcEnfSpec.
 
 Definition lop (e : logent) : op := snd (fst e).
 Definition lres (e : logent) : res := snd e.
@@ -62,3 +62,71 @@ Example mem_linearizable_instance :
   | _ => False
   end.
 Proof. vm_compute. reflexivity. Qed.
+
+(* ------------------------------------------------------------------ statements NOT proved *)
+
+(** Quiescent accounting (audit aud-store item 4): when everything has finished, the enforcer's book is exactly the
+    live messages, curSize is their total and the total is within the limit — for every cap, limit and schedule,
+    deliveries carrying pairwise distinct tags (a tag stands for the identity of the Message object).
+    NOT PROVED. Proved: e_cur <= total of the book + what is being evicted (ConcMemCrash.invJ, one-sided), and
+    the whole statement for non-overlapping runs of deliveries/reads/mark-seen (ConcC07Limit.Q). The runner
+    evaluates this statement on the model's final state of every forced schedule with a size limit
+    (verdict fail:model-quiescence-statement-refuted); an audit run of 4 200 random schedules found no
+    counterexample. A proof needs the two-sided accounting and a linear-ownership invariant for tags (every
+    tag is in exactly one of: not yet delivered / live in a mailbox / removed and awaiting its notice / gone). *)
+Definition add_tags_of (ops : list op) : list N := flat_map (fun o => match o with OAdd _ g _ => [g] | _ => [] end) ops.
+Definition live_tags (s : msys) : list N := flat_map (fun kb => map m_tag (b_msgs (x_box (snd kb)))) (s_boxes s).
+Definition book_tags (s : msys) : list N := map (fun k => m_tag (snd k)) (e_all (s_enf s)).
+Fixpoint book_total (l : list ent) : Z := match l with [] => 0%Z | k :: l' => (esize k + book_total l')%Z end.
+Definition mem_quiescent_accounting_stmt : Prop :=
+  forall cap max ops sched s,
+    (0 <= max)%Z -> NoDup (add_tags_of ops) ->
+    run (init_sys cap (Some max) [] enf0 ops) sched = Fin s -> all_done s = true ->
+    (forall g, In g (book_tags s) <-> In g (live_tags s)) /\ NoDup (book_tags s) /\
+    e_cur (s_enf s) = book_total (e_all (s_enf s)) /\ (e_cur (s_enf s) <= max)%Z.
+
+(** The memory-store model refines the sub-action specification [qstep] the runner's oracle uses with a size
+    limit (Model/ConcEnfSpec.v). NOT PROVED: [qstep] is validated only by the oracle accepting every forced
+    schedule of the real store (24 000 in the thorough tier) and by own breaking edits. *)
+Inductive qreach (cap : N) (max : option Z) : qstate * list qpc -> qstate * list qpc -> Prop :=
+| qreach_refl c : qreach cap max c c
+| qreach_step q pcs t p ch q' p' c0 :
+    qreach cap max c0 (q, pcs) -> nth_error pcs t = Some p -> qstep cap max q p ch = Some (q', p') ->
+    qreach cap max c0 (q', set_nth t p' pcs).
+Definition concmem_refines_qstep_stmt : Prop :=
+  forall cap max ops sched s,
+    NoDup (add_tags_of ops) ->
+    run (init_sys cap max [] enf0 ops) sched = Fin s -> all_done s = true ->
+    exists q pcs, qreach cap max (q0, map QStart ops) (q, pcs) /\
+      (forall t r, nth_error (s_thr s) t = Some (PDone r) -> exists r', nth_error pcs t = Some (QDone r') /\
+                   (forall l, r <> RVisit l -> r' = r)) /\
+      (forall mb, sget mb (q_store q) = x_box (getx mb s)).
+
+(** "Every operation completes" (audit item 5): the number of productive steps of any schedule is bounded, for
+    the memory-store model and for the file-store model. NOT PROVED (deadlock freedom says only that some party
+    can always move). Sketch: every step moves a program counter forward along an acyclic program; the loops are
+    the cap loop (bounded by the mailbox length), the enforcer's eviction loop (bounded by the book) and the
+    walk (bounded by the names listed); the book and the mailboxes hold at most one entry per delivery. *)
+Fixpoint productive (s : msys) (sched : list (who * nat)) : nat :=
+  match sched with
+  | [] => 0
+  | (w, c) :: r => match step s w c with
+                   | SOk s' => S (productive s' r)
+                   | SNoop => productive s r
+                   | _ => 0
+                   end
+  end.
+Definition mem_terminates_stmt : Prop :=
+  forall cap max ops, (match max with Some z => 0 <= z | None => True end)%Z ->
+    exists bound, forall sched, (productive (init_sys cap max [] enf0 ops) sched <= bound)%nat.
+Fixpoint fproductive (s : fsys) (sched : list (tid * nat)) : nat :=
+  match sched with
+  | [] => 0
+  | (t, c) :: r => match fstep s t c with
+                   | SOk s' => S (fproductive s' r)
+                   | SNoop => fproductive s r
+                   | _ => 0
+                   end
+  end.
+Definition file_terminates_stmt : Prop :=
+  forall g ops, exists bound, forall sched, (fproductive (finit g ops) sched <= bound)%nat.
